@@ -28,6 +28,7 @@ import (
 	"time"
 
 	"github.com/zeromicro/go-zero/core/fx"
+	"github.com/zeromicro/go-zero/core/logx"
 	"github.com/zeromicro/go-zero/rest"
 	"github.com/zeromicro/go-zero/rest/handler"
 	"github.com/zeromicro/go-zero/verifshim/vlib"
@@ -328,12 +329,42 @@ type callSpec struct {
 	Method string // zrpc-server: "" default timeout, "m" per-method timeout dt/2
 	CallT  int    // zrpc-client: per-call option in ms (-1 none)
 	DefT   int    // zrpc-client: default in ms
-	Mw     string // zrpc-chain: Middlewares.Timeout on | off
+	Mw     string // zrpc-chain: Middlewares.Timeout on | off; zrpc-srvchain: Middlewares.Recover on | off
+	Table  string // zrpc-srvchain: the MethodTimeouts table in order: A = /svc/a dt/2, B = /svc/b 2dt, E = entry with an empty method name (dt/4)
 }
 
 func (s callSpec) isClient() bool { return s.Kind == "zrpc-client" || s.Kind == "zrpc-chain" }
 
+// timeout in force for the zrpc-srvchain kinds: the method's own entry, else the server-wide one
+func (s callSpec) srvTimeout() time.Duration {
+	switch {
+	case s.Method == "a" && strings.Contains(s.Table, "A"):
+		return dt / 2
+	case s.Method == "b" && strings.Contains(s.Table, "B"):
+		return 2 * dt
+	}
+	return dt
+}
+
+func (s callSpec) srvTable() []verifzrpc.MethodTimeout {
+	var t []verifzrpc.MethodTimeout
+	for _, e := range s.Table {
+		switch e {
+		case 'A':
+			t = append(t, verifzrpc.MethodTimeout{FullMethod: "/svc/a", Timeout: dt / 2})
+		case 'B':
+			t = append(t, verifzrpc.MethodTimeout{FullMethod: "/svc/b", Timeout: 2 * dt})
+		case 'E':
+			t = append(t, verifzrpc.MethodTimeout{FullMethod: "", Timeout: dt / 4})
+		}
+	}
+	return t
+}
+
 func (s callSpec) name() string {
+	if s.Kind == "zrpc-srvchain" {
+		return fmt.Sprintf("%s-%s-parent:%s-m%s-table:%s-recover:%s", s.Kind, s.Work, s.Parent, orDash(s.Method), orDash(s.Table), s.Mw)
+	}
 	if s.Kind == "zrpc-chain" {
 		return fmt.Sprintf("%s-%s-parent:%s-call%d-def%d-mw:%s", s.Kind, s.Work, s.Parent, s.CallT, s.DefT, s.Mw)
 	}
@@ -401,6 +432,17 @@ func callScenario(s callSpec) vx.Scenario {
 				o.resp, o.err = ic(parent, "req", &grpc.UnaryServerInfo{FullMethod: method}, func(ctx context.Context, req any) (any, error) {
 					return work(ctx)
 				})
+			case "zrpc-srvchain":
+				// tracing, recover (if on), prometheus and the timeout interceptor as zrpc.NewServer sets them
+				// up (recover OUTSIDE the timeout interceptor), chained as grpc.ChainUnaryInterceptor does
+				ic := verifzrpc.ServerChain(int64(dt/time.Millisecond), s.Mw != "off", s.srvTable())
+				method := "/svc/other"
+				if s.Method != "" {
+					method = "/svc/" + s.Method
+				}
+				o.resp, o.err = ic(parent, "req", &grpc.UnaryServerInfo{FullMethod: method}, func(ctx context.Context, req any) (any, error) {
+					return work(ctx)
+				})
 			case "fx":
 				if s.Parent == "none" {
 					o.err = fx.DoWithTimeout(func() error { _, err := work(context.Background()); return err }, dt)
@@ -455,6 +497,10 @@ func callScenario(s callSpec) vx.Scenario {
 		if s.Kind == "zrpc-server" && s.Method == "m" {
 			t = dt / 2
 		}
+		recOn := s.Kind == "zrpc-srvchain" && s.Mw != "off"
+		if s.Kind == "zrpc-srvchain" {
+			t = s.srvTimeout()
+		}
 		if s.isClient() {
 			// effective timeout: the per-call option if given, else the client-wide one; <= 0 means none
 			t = time.Duration(s.DefT) * time.Millisecond
@@ -482,6 +528,9 @@ func callScenario(s callSpec) vx.Scenario {
 		}
 		if o.ran && s.Kind != "fx" {
 			if o.dlOK != hasDl || (hasDl && !o.dlSeen.Equal(expDl)) {
+				if s.Kind == "zrpc-srvchain" {
+					return vx.Verdict{Class: "wrong-deadline:server-chain", Msg: fmt.Sprintf("server chain (server-wide timeout %v, method table %q in this order with A=/svc/a %v, B=/svc/b %v, E=empty name; called %s, incoming deadline %s): the handler saw deadline %v (ok=%v), want %v = min(incoming, start + the method's own timeout or the server-wide one)", dt, s.Table, dt/2, 2*dt, "/svc/"+s.Method, s.Parent, o.dlSeen, o.dlOK, expDl)}
+				}
 				if s.Kind == "zrpc-chain" {
 					return vx.Verdict{Class: "wrong-deadline:client-chain", Msg: fmt.Sprintf("client chain (client-wide timeout %dms, per-call %dms (-1 = none), timeout middleware %s, incoming deadline %s): the invoker saw deadline %v (ok=%v), want %v (has=%v) = min(incoming, start + per-call or client-wide timeout)", s.DefT, s.CallT, s.Mw, s.Parent, o.dlSeen, o.dlOK, expDl, hasDl)}
 				}
@@ -502,6 +551,9 @@ func callScenario(s callSpec) vx.Scenario {
 			if s.Work != "panic" {
 				return vx.Verdict{Class: "unexpected-panic", Msg: fmt.Sprint(o.panicked)}
 			}
+			if recOn {
+				return vx.Verdict{Class: "unexpected-panic", Msg: "the recover interceptor is the outermost but one, yet the chain panicked: " + fmt.Sprint(o.panicked)}
+			}
 			if !strings.Contains(fmt.Sprint(o.panicked), "work panic") {
 				return vx.Verdict{Class: "panic-value-changed", Msg: fmt.Sprint(o.panicked)}
 			}
@@ -518,7 +570,10 @@ func callScenario(s callSpec) vx.Scenario {
 				return vx.Verdict{Class: "mixture", Msg: fmt.Sprintf("timeout error together with a response %v", o.resp)}
 			}
 			return vx.Verdict{Sig: "timeout"}
-		case s.Work == "ok" && o.err == nil && (s.Kind != "zrpc-server" || o.resp == "result"):
+		case s.Work == "panic" && recOn && o.resp == nil && status.Code(o.err) == codes.Internal && strings.Contains(o.err.Error(), "work panic"):
+			// the work's complete result as the chain defines it: the recover interceptor turned the re-raised panic into an Internal error
+			return vx.Verdict{Sig: "recovered"}
+		case s.Work == "ok" && o.err == nil && ((s.Kind != "zrpc-server" && s.Kind != "zrpc-srvchain") || o.resp == "result"):
 			return vx.Verdict{Sig: "result"}
 		case s.Work == "err" && o.err == errWork && o.resp == nil:
 			return vx.Verdict{Sig: "work-error"}
@@ -535,6 +590,57 @@ func callScenario(s callSpec) vx.Scenario {
 		w = 4
 	}
 	return vx.Scenario{Name: s.name(), Body: body, Check: check, Weight: w}
+}
+
+// tableScenario: one MethodTimeouts table (entries in this order) on the server chain; the methods
+// /svc/a, /svc/b and an unlisted one are called one after the other with work that returns at once:
+// each must run under its own entry's timeout, or the server-wide one when it has none - whatever
+// else the table holds (entries of other methods, entries with an empty name) and in whatever order.
+func tableScenario(tb string) vx.Scenario {
+	name := "zrpc-srvtable-" + orDash(tb)
+	type one struct {
+		dl   time.Time
+		ok   bool
+		resp any
+		err  error
+	}
+	methods := []string{"", "a", "b"}
+	body := func() {
+		o := make([]one, len(methods))
+		vsched.SetUser(&o)
+		ic := verifzrpc.ServerChain(int64(dt/time.Millisecond), true, callSpec{Table: tb}.srvTable())
+		for i, m := range methods {
+			i := i
+			method := "/svc/other"
+			if m != "" {
+				method = "/svc/" + m
+			}
+			o[i].resp, o[i].err = ic(context.Background(), "req", &grpc.UnaryServerInfo{FullMethod: method}, func(ctx context.Context, req any) (any, error) {
+				o[i].dl, o[i].ok = ctx.Deadline()
+				return "result", nil
+			})
+		}
+	}
+	check := func(e *vsched.Exec) vx.Verdict {
+		if g := vx.Guard(e); g != nil {
+			return *g
+		}
+		o := *(e.User.(*[]one))
+		sig := ""
+		for i, m := range methods {
+			want := callSpec{Table: tb, Method: m}.srvTimeout()
+			exp := vsched.Epoch.Add(want)
+			if !o[i].ok || !o[i].dl.Equal(exp) {
+				return vx.Verdict{Class: "wrong-deadline:server-chain", Msg: fmt.Sprintf("server chain (server-wide timeout %v, method table %q in this order with A=/svc/a %v, B=/svc/b %v, E=empty name %v): the handler of /svc/%s saw deadline %v (ok=%v), want start+%v = the method's own timeout or the server-wide one", dt, tb, dt/2, 2*dt, dt/4, orDash(m), o[i].dl, o[i].ok, want)}
+			}
+			if o[i].err != nil || o[i].resp != "result" {
+				return vx.Verdict{Class: "mixture", Msg: fmt.Sprintf("table %q, /svc/%s: work returned (result, nil) at once, the caller observed (%v, %v)", tb, orDash(m), o[i].resp, o[i].err)}
+			}
+			sig += fmt.Sprintf("%v,", want)
+		}
+		return vx.Verdict{Sig: sig}
+	}
+	return vx.Scenario{Name: name, Body: body, Check: check, SetBound: true, P: 0, T: 0, Weight: 290 - len(tb)}
 }
 
 // ---------- REST configuration: global Timeout × per-route WithTimeout ----------
@@ -671,6 +777,7 @@ func confGroupsScenario(globalMs int, routeMs []int) vx.Scenario {
 func main() {
 	cfg := vlib.ParseFlags("C04", "model_checking")
 	r := vlib.NewReport(cfg)
+	logx.Disable() // the recover / log middlewares of the engine chains report every panic and request
 	if cfg.Shard != "" || cfg.Replay != "" {
 		// one P while executions run: per-P runtime caches (sync.Pool) that the code under test may
 		// use then behave identically in every execution (a Put followed by a Get returns the same
@@ -723,7 +830,9 @@ func main() {
 		sc = append(sc, restScenario(restSpec{Acts: "W", End: "ret", Parent: "later", Exempt: ex}))
 	}
 	sc = append(sc, flushScenarios(cfg.Thorough())...)
+	sc = append(sc, chainScenarios(cfg.Thorough())...)
 	sc = append(sc, orderScenarios(cfg.Thorough())...)
+	sc = append(sc, srvScenarios(cfg.Thorough())...)
 	for _, k := range []string{"zrpc-server", "fx"} {
 		for _, w := range []string{"ok", "err", "panic", "stall"} {
 			for _, p := range []string{"none", "earlier", "later", "cancel-during"} {
@@ -733,6 +842,27 @@ func main() {
 				}
 			}
 		}
+	}
+	// the server chain as zrpc.NewServer assembles it: behaviours x incoming deadlines x recover on/off on
+	// the table AB, then every order of every table over {A, B, E} x every method
+	for _, rec := range []string{"on", "off"} {
+		for _, w := range []string{"ok", "err", "panic", "stall"} {
+			for _, p := range []string{"none", "earlier", "later", "cancel-during"} {
+				for _, m := range []string{"", "a"} {
+					if m == "" && !cfg.Thorough() && (rec == "off" || (p != "none" && p != "later")) {
+						continue
+					}
+					sc = append(sc, callScenario(callSpec{Kind: "zrpc-srvchain", Work: w, Parent: p, Method: m, CallT: -1, Mw: rec, Table: "AB"}))
+				}
+			}
+		}
+	}
+	tables := []string{"", "A", "B", "E", "AB", "BA", "AE", "EA", "ABE", "AEB", "EAB", "BAE", "BEA", "EBA"}
+	if cfg.Thorough() {
+		tables = append(tables, "AA", "EE", "EAE", "EBE", "ABEE", "EEAB", "EABE")
+	}
+	for _, tb := range tables {
+		sc = append(sc, tableScenario(tb))
 	}
 	for _, def := range []int{0, 1000} {
 		for _, call := range []int{-1, 0, 250, 4000} {
@@ -772,5 +902,5 @@ func main() {
 		}
 	}
 	vx.Main(cfg, r, sc, vx.Bounds{P: 3, T: 1}, vx.Bounds{P: 4, T: 2},
-		"every interleaving (preemption bound / timer-deviation bound per scenario in the evidence) of a handler script with the expiry of the deadline on the virtual clock and client cancellation, for all scripts of <= 3 (4 thorough) header/status/body actions x 4 endings on the REST TimeoutHandler, all work behaviours x parent deadlines on the zRPC server interceptor and fx.DoWithTimeout, all default x per-call x incoming-deadline combinations of the zRPC client interceptor, alone and inside the unary interceptor chain as the real client assembles it (trace, duration, prometheus, breaker, timeout middleware on/off) and all global x per-route REST timeout settings; Flush sub-family (client = recording ResponseWriter+Flusher whose every call is a scheduling point tagged wrapper/handler thread): all scripts of <= 3 (4) actions from {header, status, write, flush} containing a flush x 4 endings, all scripts of <= 2 (3) actions x {stall, wait-for-context} x late scripts {F, WF, HF, CF} (all late scripts of <= 3 actions ending in a flush), client cancel on 4 scripts, and two requests through ONE TimeoutHandler (first times out with a late flushing handler, second completes; served one after the other and by two server threads); deadline-order family (T=0, P<=2 (4)): stalled work x {fx, zRPC server, REST} x parent {none, later 2dt, later 10dt, earlier dt/2, cancel at dt/2} with a marker timer at min(parent,dt)+1ms that must fire after the wrapper returned; distinct/non-trivial by (scenario, what the caller observed: full result, timeout result, re-raised panic)")
+		"every interleaving (preemption bound / timer-deviation bound per scenario in the evidence) of a handler script with the expiry of the deadline on the virtual clock and client cancellation, for all scripts of <= 3 (4 thorough) header/status/body actions x 4 endings on the REST TimeoutHandler, all work behaviours x parent deadlines on the zRPC server interceptor and fx.DoWithTimeout, all default x per-call x incoming-deadline combinations of the zRPC client interceptor, alone and inside the unary interceptor chain as the real client assembles it (trace, duration, prometheus, breaker, timeout middleware on/off) and all global x per-route REST timeout settings; Flush sub-family (client = recording ResponseWriter+Flusher whose every call is a scheduling point tagged wrapper/handler thread): all scripts of <= 3 (4) actions from {header, status, write, flush} containing a flush x 4 endings, all scripts of <= 2 (3) actions x {stall, wait-for-context} x late scripts {F, WF, HF, CF} (all late scripts of <= 3 actions ending in a flush), client cancel on 4 scripts, and two requests through ONE TimeoutHandler (first times out with a late flushing handler, second completes; served one after the other and by two server threads); deadline-order family (T=0, P<=2 (4)): stalled work x {fx, zRPC server, REST} x parent {none, later 2dt, later 10dt, earlier dt/2, cancel at dt/2} with a marker timer at min(parent,dt)+1ms that must fire after the wrapper returned; chain family (chain.go): the same scripts with the handler bound through the real rest engine (newEngine/use/addRoutes/bindRoutes/router) in three middleware configurations (Timeout+Recover; every native middleware without process-wide clock state + a Server.Use middleware; Timeout + Server.Use without recover), the alphabet extended by WriteHeader with an invalid status code (0, 99, 1000: the writer panics) and by a panic after the stall / after the context ended, reference taken over the actions that completed, a recovered panic = status 500 unless committed; server-deadline family (restsrv-*): global timeout {0,300ms,3s} x every ordered tuple of 1-2 (3) route groups from {no own timeout, WithTimeout 100ms, WithTimeout 5s, WithSSE} registered through Server.AddRoutes and started through the real engine.start (http.Server captured before it listens): WriteTimeout, if set, is no earlier than any route's deadline, every route runs under its own deadline, event-stream requests bypass; distinct/non-trivial by (scenario, what the caller observed: full result, timeout result, re-raised panic)")
 }
